@@ -329,6 +329,7 @@ fn scripted_case(kind: KindTag, world: usize, radius_factor: f64, seq: &[usize])
         targets: vec![t.clone()],
         radius: a.goal_radius,
         rng_sampler: false,
+        half: false,
     };
     let n = a.states.len();
     PlanCase {
